@@ -10,7 +10,9 @@ import (
 	"log"
 	"os"
 	"path/filepath"
+	"runtime"
 	"sync"
+	"sync/atomic"
 	"time"
 
 	"github.com/elementsproject/peerswap/swap"
@@ -60,6 +62,7 @@ func main() {
 	}
 	parts := make([]string, len(scheds))
 	var wg sync.WaitGroup
+	var done atomic.Int64
 	jobs := make(chan int)
 	for k := 0; k < *workers; k++ {
 		wg.Add(1)
@@ -81,6 +84,10 @@ func main() {
 				world.Close()
 				w.Close()
 				parts[i] = p
+				// policy.CreateFromFile leaves one descriptor per start to the finalizer: let the collector run regularly
+				if done.Add(1)%256 == 0 {
+					runtime.GC()
+				}
 			}
 		}()
 	}
